@@ -102,6 +102,8 @@ def fam_C04(tier, seed):
         _, res = _two_on_worker(b, k1, k2, **md)
         b.con("WorkLoad", res=res, intervals=ivs, kind=kind)
         ps.append(b.done())
+        if k1 == "V" and not md and ivs in ([[1, 2, 1]], [[1, 3, 2]]):
+            ps[-1]["keep"] = True     # the variable task can span the whole interval (duration 3 over [1, 2) or [1, 3))
     # ResourcePeriodicallyUnavailable (horizon up to 8)
     for (k1, k2), md, (ivs, period, st, off, en) in itertools.product(
             [("F2", "F1"), ("V", "F1"), ("F1", "Z"), ("F3", "F1")], [dict(), dict(sel=True), dict(cumul=True)],
